@@ -9,7 +9,7 @@ import glob, importlib, json, os, subprocess, sys
 
 import common
 
-MORE_PROPS = []   # per-pass theorem modules are added here when their builders deliver them (C01Jumps, C01Func, C01Exprs)
+MORE_PROPS = ['MaltModel.Props.C01Func']   # per-pass theorem modules, added as their builders deliver them (C01Jumps, C01Exprs pending)
 PART_HOOKS = []   # per-pass correspondences are wired in when the pass builders deliver them
 
 
